@@ -61,7 +61,10 @@ def search(families=('all',)):
                 if l.startswith('evaluations='):
                     out['evaluations'] += int(l.split()[0].split('=')[1])
             if p.returncode not in (0, 1):
-                out['error'] = 'witness crashed on family %s (exit %d): %s' % (fam, p.returncode, p.stderr[-1500:])
+                # a panic / abort inside the real crate: the panic hook has printed the input as a finding (gen=panic)
+                out['crashed'] = 'witness process ended abnormally on family %s (exit %d): %s' % (fam, p.returncode, p.stderr[-800:])
+                if not any(f.get('gen') == 'panic' for f in out['findings']):
+                    out['error'] = out['crashed']
     finally:
         shutil.rmtree(d, ignore_errors=True)
     return out
@@ -95,6 +98,9 @@ def relevant(prop, f):
     fam, stage, orc, cfg = f.get('family'), f.get('stage'), f.get('oracle', ''), f.get('cfg', 0)
     hdr_opts = cfg & (HDR_BITS_REQ if fam == 'request' else HDR_BITS_RESP if fam == 'response' else 0)
     parts = orc.split('+')
+    if f.get('gen') == 'panic':
+        # the real crate panicked / aborted on this input (debug assertions and UB precondition checks are on in the replay build)
+        return prop in ('C01', 'C13') or (prop == 'C09' and fam == 'chunk')
     if prop == 'C19':
         return fam == 'alloc'
     if fam == 'alloc':
